@@ -411,6 +411,8 @@ type interp struct {
 	shadowReads   int
 	nestedCalls   int
 	fetches       int
+	outerJumps    int      // LEAVE/ITERATE executed whose target is not the innermost enclosing loop
+	loopStack     []string // labels of the loops being executed ("" for unlabelled)
 	fetchEnds     int
 	iterateRepeat int
 }
@@ -607,6 +609,12 @@ func (in *interp) loopCtl(out ctl, label string) (brk, cont bool, ret ctl) {
 	return false, false, out
 }
 
+func (in *interp) noteJump(label string) {
+	if n := len(in.loopStack); n > 0 && in.loopStack[n-1] != label {
+		in.outerJumps++
+	}
+}
+
 func (in *interp) noteIter(n int) {
 	if n > in.maxIter {
 		in.maxIter = n
@@ -654,6 +662,8 @@ func (in *interp) exec(s stmt) ctl {
 		return in.raise(condExc) // ER_SP_CASE_NOT_FOUND, SQLSTATE 20000
 	case sWhile:
 		n := 0
+		in.loopStack = append(in.loopStack, x.label)
+		defer func(d int) { in.loopStack = in.loopStack[:d] }(len(in.loopStack) - 1)
 		for in.isTrue(x.cond) {
 			n++
 			in.noteIter(n)
@@ -667,6 +677,8 @@ func (in *interp) exec(s stmt) ctl {
 		}
 	case sRepeat:
 		n := 0
+		in.loopStack = append(in.loopStack, x.label)
+		defer func(d int) { in.loopStack = in.loopStack[:d] }(len(in.loopStack) - 1)
 		for {
 			n++
 			in.noteIter(n)
@@ -691,6 +703,8 @@ func (in *interp) exec(s stmt) ctl {
 		}
 	case sLoop:
 		n := 0
+		in.loopStack = append(in.loopStack, x.label)
+		defer func(d int) { in.loopStack = in.loopStack[:d] }(len(in.loopStack) - 1)
 		for {
 			n++
 			in.noteIter(n)
@@ -707,9 +721,11 @@ func (in *interp) exec(s stmt) ctl {
 		}
 	case sLeave:
 		in.leaves++
+		in.noteJump(x.label)
 		return ctl{kind: kLeave, label: x.label}
 	case sIterate:
 		in.iterates++
+		in.noteJump(x.label)
 		return ctl{kind: kIterate, label: x.label}
 	case sSelect:
 		row := make([]val, len(x.es))
